@@ -428,6 +428,59 @@ def r10_8(prog, tab):
     return r
 
 
+def r10_10(prog, tab, rid="R10.10", only=None, floor=100):
+    """An array of the compiler's own data structures is walked against its own count.  The parser/fixer structures keep
+    (array, count) pairs -- row[]/rows, column[]/columns, elements[]/el_count, components[]/comp_count, ... (frozen
+    in tables/c10.json after reading the headers).  For every subscript of such an array by a variable: if the
+    comparisons that dominate it bound that variable by a count field, one of them is the array's own count.  An
+    index bounded only by another array's count (`cn < rows` for column[cn]) stops short or runs past the array: the
+    compiler reads beyond it (it may die by signal) or misses entries that are there."""
+    r = Rule(rid, "a variable index into one of the compiler's counted arrays is bounded by that array's own count, not by another array's", floor=floor)
+    pairs = {k: set(v) for k, v in tab["array_counts"].items()}
+    allc = set().union(*pairs.values())
+    for f in sorted(prog.funcs.values(), key=lambda f: f.key):
+        if only is not None and not only(f):
+            continue
+        dom = f.dominators()
+        n = 0
+        for b, i, e in f.events("subscript"):
+            bt = strip_casts(e["basex"]["tree"])
+            if not (isinstance(bt, list) and bt and bt[0] == "member" and bt[2] in pairs):
+                continue
+            if "const" in e["index"]:
+                continue
+            ivars = {x[1] for x in walk(e["index"]["tree"]) if x[0] == "var"}
+            if not ivars:
+                continue
+            own, other, where = set(), set(), None
+            for d in dom.get(b.id, ()):
+                tb = f.blocks[d]
+                if not tb.term or "cond" not in tb.term:
+                    continue
+                ct = tb.term["cond"].get("full_tree") or tb.term["cond"]["tree"]
+                for c in walk(ct):
+                    if isinstance(c, list) and c and c[0] == "bin" and c[1] in ("<", "<=", ">", ">=", "!=", "=="):
+                        vs = {x[1] for x in walk(c) if x[0] == "var"}
+                        if not (vs & ivars):
+                            continue
+                        cs = {x[2] for x in walk(c) if x[0] == "member" and x[2] in allc}
+                        own |= cs & pairs[bt[2]]
+                        if cs - pairs[bt[2]]:
+                            other |= cs - pairs[bt[2]]
+                            where = tb.term.get("line")
+            if not own and not other:
+                continue             # not bounded by a count field at all (a NULL-terminated walk, a computed index): no verdict
+            n += 1
+            key = "%s[%s]#%d" % (tree_text(bt), tree_text(e["index"]["tree"]), n)
+            if own:
+                r.ok(f, key, "bounded by the array's own count (%s)" % ", ".join(sorted(own)), e["line"])
+            else:
+                r.bad(f, key, "`%s` is indexed by `%s`, which the condition at line %s bounds by `%s` -- the count of another array -- and nothing "
+                              "bounds it by `%s`" % (tree_text(bt), tree_text(e["index"]["tree"]), where, ", ".join(sorted(other)),
+                                                      "/".join(sorted(pairs[bt[2]]))), e["line"])
+    return r
+
+
 def run(ctx):
     prog = ctx.prog("K")
     tab = load_tables("c10")
@@ -444,6 +497,7 @@ def run(ctx):
     rules.append(c11.r11_3(prog, load_tables("c11"), rid="R10.6", where="libasn1fix/", floor=60))
     rules.append(r10_7(prog, tab))
     rules.append(r10_8(prog, tab))
+    rules.append(r10_10(prog, tab))
     # R10.9: asn1c terminates: exact rule over every loop of the compiler
     from . import termination
     rules.append(termination.rule_for(prog, "R10.9", "the compiler (parser actions, fixer, printer, code generator)", set(prog.funcs.keys()), 250))
